@@ -639,7 +639,8 @@ pub fn check_minmax(rep: &mut Rep, lf: &Leaf, level: &str, at: &str, vals: &[PV]
                         rep.v(
                             lf,
                             level,
-                            &format!("{side}-bound"),
+                            // a bound flagged exact was not truncated: a different defect class
+                            &format!("{side}-bound{}", if exact { "-exact" } else { "" }),
                             format!("{at}: value {v:?} is {} the {side} {bound:?} (order {})\nvalues {}", if side == "min" { "below" } else { "above" }, k.name(), dump_pvs(vals)),
                         );
                         break;
@@ -755,6 +756,13 @@ pub fn check_chunk(
     let rgm = md.row_group(rg);
     let cm = rgm.column(col);
     let at = format!("row group {rg}");
+    if cm.column_descr().physical_type() == PhysicalType::FIXED_LEN_BYTE_ARRAY && cm.column_descr().type_length() == 0 {
+        // the low-level plain decoder asserts `type_length > 0` (FixedSizeBinary(0), a known
+        // round-trip corner): such chunks cannot be decoded independently, so they are skipped
+        rep.ctx.reject();
+        rep.ctx.count("skipped:zero-width-fixed-len-byte-array", 1);
+        return None;
+    }
     let d = match guard(|| decode_chunk(fr, rg, col)) {
         Ok(Ok(d)) => d,
         Ok(Err(e)) => {
